@@ -7,12 +7,12 @@ export GOFLAGS=-mod=mod GOPROXY=off
 cd "$wt" || exit 2
 git checkout -q -- . ; rm -f $pkg/zz_seed_demo_test.go
 cp "$sd/demo_test.go" $pkg/zz_seed_demo_test.go
-go test -count=1 -vet=off -run "$run" ./$pkg/ > /tmp/sv-a.txt 2>&1; a=$?
+go test -count=1 -vet=off -run "$run" ./$pkg/ > /tmp/sv-${name}-a.txt 2>&1; a=$?
 git apply "$sd/patch.diff" || { echo "PATCH DOES NOT APPLY"; rm -f $pkg/zz_seed_demo_test.go; exit 1; }
-go build ./... > /tmp/sv-b.txt 2>&1; b=$?
-go test -count=1 -vet=off -run "$run" ./$pkg/ > /tmp/sv-d.txt 2>&1; d=$?
+go build ./... > /tmp/sv-${name}-b.txt 2>&1; b=$?
+go test -count=1 -vet=off -run "$run" ./$pkg/ > /tmp/sv-${name}-d.txt 2>&1; d=$?
 rm -f $pkg/zz_seed_demo_test.go
-go test -count=1 -vet=off -skip '^TestManager$' $pkgs > /tmp/sv-c.txt 2>&1; c=$?
+go test -count=1 -vet=off -skip '^TestManager$' $pkgs > /tmp/sv-${name}-c.txt 2>&1; c=$?
 git checkout -q -- .
 echo "$name: demo-without rc=$a (want 0)  build rc=$b (want 0)  existing-tests rc=$c (want 0)  demo-with rc=$d (want !=0)"
 if [ $a -eq 0 ] && [ $b -eq 0 ] && [ $c -eq 0 ] && [ $d -ne 0 ]; then
@@ -30,5 +30,5 @@ json.dump(meta,open("/verif/seeded/%s/meta.json"%name,"w"),indent=1)
 PY
   echo KEPT
 else
-  echo REJECTED; tail -5 /tmp/sv-a.txt /tmp/sv-c.txt /tmp/sv-d.txt | tail -30
+  echo REJECTED; for f in /tmp/sv-${name}-a.txt /tmp/sv-${name}-c.txt /tmp/sv-${name}-d.txt; do tail -5 $f; done
 fi
